@@ -54,7 +54,7 @@ func RenderExpr(e Expr, o RenderOpts) string {
 	switch t := e.(type) {
 	case NumLit:
 		o.feat("lit.num")
-		return SQLNum(t.V)
+		return o.Lit(t.V)
 	case StrLit:
 		o.feat("lit.str")
 		return SQLString(t.S, o.StrStyle)
